@@ -451,11 +451,11 @@ fn adversarial(h: &mut H) {
 	let mut distinct = std::collections::BTreeSet::new();
 	let mut vios = vec![];
 	let maxp = P::MAX as u64;
-	let lens: Vec<u64> = vec![0, 1, 2, 3, maxp - 2, maxp - 1, maxp, maxp + 1, maxp + 45];
+	let lens: Vec<u64> = vec![0, 1, 2, 3, maxp - 2, maxp - 1, maxp, maxp.saturating_add(1), maxp.saturating_add(45)];
 	let lens: Vec<u64> = lens.into_iter().filter(|&l| l <= 70_000).collect();
 	for &l in &lens {
 		let buf: Vec<u32> = (0..l as u32).map(|j| 1000 + j).collect();
-		let mut idxs = vec![0u64, 1, l.saturating_sub(1), l, l + 1, maxp - 1, maxp, maxp + 1, u64::MAX];
+		let mut idxs = vec![0u64, 1, l.saturating_sub(1), l, l + 1, maxp - 1, maxp, maxp.saturating_add(1), u64::MAX];
 		idxs.sort_unstable();
 		idxs.dedup();
 		for i in idxs {
